@@ -288,7 +288,7 @@ def _strategy():
 
 
 def plan(tier, seed):
-    n = 450 if tier == 'quick' else 12000
+    n = 1000 if tier == 'quick' else 12000
     return [{"seed": seed * 100 + i, "n": n} for i in range(16)]
 
 
